@@ -35,6 +35,10 @@ def contract_keys(pid):
     return keys
 
 
+LSHIFT_EQUIV = [["__lshift__.lshift_iterator.__iter__", d] for d in
+                         ("bin@line1143", "boolop@line1142", "cmp@line1141", "cmp@line1142", "cmp@line1143", "const@line1134", "const@line1141",
+                          "const@line1143", "drop@line1134")]
+
 prop("C11", level="proof", bounded=True,
      technique="deductive: pyvc VCs over the real operator methods, z3/cvc5; bounded cross-check on CPython",
      text="Every operator method of Payload and CoordPayload (value-returning, reflected, in-place, comparison, <<=) is proved "
@@ -54,7 +58,9 @@ prop("C11", level="proof", bounded=True,
 prop("C01", level="proof", bounded=True,
      technique="deductive: representation invariant WF as pre/post of every mutator under contract (pyvc, z3/cvc5); bounded histories as cross-check",
      text="WF (parallel lists, strictly increasing coordinates, boxed leaves) is proved to be preserved by the insertion path "
-          "(_coord2pos, _create_payload, getPayloadRef, getPositionRef), append, position assignment and clear, for all fibers and arguments; "
+          "(_coord2pos, _create_payload, getPayloadRef, getPositionRef), append, position assignment and clear, for all fibers and arguments; the "
+          "constructor's order/uniqueness checks (_checkOrdered/_checkUnique) are proved to accept exactly weakly/strictly ascending coordinate lists, the "
+          "populate generator (lshift) and iterRangeShapeRef are proved to keep WF at every yield and at exit; "
           "rejections (CoordinateError / monotonicity assert) are proved to leave both lists unchanged. 'Every history' follows by induction over the "
           "mutator contracts. Mutators outside pyvc's reach (updateCoords' re-sort through zip/sorted, updatePayloads with an arbitrary callable, "
           "populate bodies, extend, fiber <<=) are decided by the bounded part only: every op of a finite universe on every tree of depth 1-2 over "
@@ -62,7 +68,9 @@ prop("C01", level="proof", bounded=True,
      note="Trusted: pyvc, z3/cvc5, bisect.bisect_left (partition point of a sorted list), the leaf-rank contract of _createDefault (tier B). "
           "Integer coordinates only in the proof; tuple coordinates and interior ranks in the bounded part.",
      also=["Fiber._coord2pos", "Fiber._create_payload", "Fiber.getPayloadRef", "Fiber.getPositionRef", "Fiber.append",
-           "Fiber.__setitem__", "Fiber.clear", "Fiber.setSavedPos", "Payload.maybe_box"],
+           "Fiber.__setitem__", "Fiber.clear", "Fiber.setSavedPos", "Payload.maybe_box", "Fiber._checkOrdered", "Fiber._checkUnique",
+           "__lshift__.lshift_iterator.__iter__", "iterRangeShapeRef"],
+     equivalent_mutants=LSHIFT_EQUIV,
      trusted_base=["bisect.bisect_left returns the partition point of a sorted list", "Fiber._createDefault leaf-rank contract (bounded, tier B)"])
 
 prop("C03", level="proof", bounded=True,
@@ -97,12 +105,14 @@ prop("C07", level="proof", bounded=True,
      technique="deductive: iterRange loop invariant against the filter spec, search contracts (pyvc, z3/cvc5); bounded enumeration of every traversal mode",
      text="iterRange is proved to yield exactly the stored, non-empty, in-range elements with their own payload objects in ascending order, to leave the "
           "tree unchanged (frame: saved-position bookkeeping only), and to yield the same sequence from every valid start_pos, with the saved position "
-          "addressing the last element yielded; _coord2pos/getPayload(Ref) carry the shape/Ref variants' per-coordinate behaviour (C03). "
-          "Bounded only: the wrappers (iterShape/Active/...), format dispatch, step arithmetic of iterRangeShape(Ref), lazy fibers (repeatable, "
+          "addressing the last element yielded. iterRangeShape is proved (any step >= 1) to visit exactly range(start, end, step), each coordinate with the "
+          "stored payload object or a fresh default box, leaving the tree untouched; iterRangeShapeRef is proved (step 1) to insert exactly the visited absent "
+          "coordinates, deliver the stored payload objects and disturb no other element; the populate generator that drives output traversal is proved under C05. "
+          "Bounded only: the wrappers (iterShape/Active/...), format dispatch, iterRangeShapeRef with other steps (non-linear visited-set clause), lazy fibers (repeatable, "
           "materialise to equal eager fibers), projection (incl. reversal and intervals) and pruning: exhaustive over all fibers on 3 (quick) / 4 "
           "(thorough) coordinates, all ranges, steps, active ranges, start positions, both formats, affine transforms +-c+k, intervals.",
      note="Trusted: pyvc, z3/cvc5, tier-B contracts of getDefault/isEmpty (ghost default / emptiness).",
-     also=["iterRange", "Fiber._coord2pos", "Fiber.getPayload", "Fiber.getPayloadRef", "Fiber.setSavedPos", "Payload.isEmpty"],
+     also=["iterRange", "iterRangeShape", "iterRangeShapeRef", "Fiber._coord2pos", "Fiber.getPayload", "Fiber.getPayloadRef", "Fiber.setSavedPos", "Payload.isEmpty"],
      trusted_base=["Fiber.getDefault / Fiber.isEmpty ghost abstractions (tier B)"])
 
 prop("C05", level="exploration", bounded=True,
@@ -125,6 +135,8 @@ prop("C05", level="exploration", bounded=True,
           "box offered at that yield (a body that keeps an earlier reference and writes it later is outside the property's quantifier).",
      also=["Fiber.getPayload", "Fiber._create_payload", "Fiber._coord2pos", "Fiber.setSavedPos", "Rank.pop", "Payload.__ilshift__", "Payload.__iadd__",
            "__lshift__.lshift_iterator.__iter__"],
+     # the start-position assert (lines 1141-1143) is trivially true without a start position, old_end (1134) feeds tracing only
+     equivalent_mutants=LSHIFT_EQUIV,
      trusted_base=["bisect.bisect_left"])
 
 prop("C02", level="exploration", bounded=True,
